@@ -62,6 +62,9 @@ type Property struct {
 	// Workers is the number of worker processes; Parallel the number of cases in flight per worker.
 	Workers  func(tier string) int
 	Parallel func(tier string) int
+	// Solo marks cases that must run one at a time in a worker process of their own (they install
+	// process-wide hooks).
+	Solo func(c Case) bool
 	// CaseTimeout is the wall-clock watchdog per case; its firing is judged by HangVerdict.
 	CaseTimeout time.Duration
 	// HangIsViolation: the property itself is about bounded completion (C05, C06, C07); a hang with a
